@@ -129,6 +129,7 @@ std::string outcome_json(const SimOutcome& o) {
 }
 
 void register_prog();
+void register_c05defer();
 void register_c13();
 void register_c14();
 void register_c15();
@@ -138,6 +139,7 @@ void register_c03();
 
 void register_all_jobs() {
   register_prog();
+  register_c05defer();
   register_c13();
   register_c14();
   register_c15();
